@@ -10,10 +10,10 @@ META = {
 
 
 def run(run, model):
-    marker.report_rule(run, model, "C10.own-release", marker.MARKER_REGIONS, "every key removal happens in state H, or the entry snapshot is restored")
-    marker.report_rule(run, model, "C10.test-first", marker.MARKER_REGIONS, "no contract is evaluated by an activation that acquired blindly")
-    marker.report_rule(run, model, "C10.held-for-contracts", marker.MARKER_REGIONS, "every contract event occurs in state H")
-    marker.body_rules(run, model)
-    marker.key_rule(run, model)
+    run.do(marker.report_rule, model, "C10.own-release", marker.MARKER_REGIONS, "every key removal happens in state H, or the entry snapshot is restored")
+    run.do(marker.report_rule, model, "C10.test-first", marker.MARKER_REGIONS, "no contract is evaluated by an activation that acquired blindly")
+    run.do(marker.report_rule, model, "C10.held-for-contracts", marker.MARKER_REGIONS, "every contract event occurs in state H")
+    run.do(marker.body_rules, model)
+    run.do(marker.key_rule, model)
     run.minimum("C10.own-release", 5, "two checker wrappers, constructor wrapper, two method wrappers")
     run.minimum("C10.key", 5)
